@@ -387,6 +387,14 @@ def Enc.string (e : Enc) : List Nat → Option Enc
     | some e' => Enc.string e' cs
     | none => none
 
+/-- `encode_list_with(list, f)` for an arbitrary element encoder `f` -/
+def Enc.list {α : Type} (f : Enc → α → Option Enc) (e : Enc) : List α → Option Enc
+  | [] => some e.zero
+  | a :: l => match f e.one a with
+    | some e' => Enc.list f e' l
+    | none => none
+
+
 /-! ## Values, sequences (what the stream and the properties run) -/
 
 inductive Value where
